@@ -21,29 +21,61 @@ pub fn unhex_list(s: &str) -> Vec<Vec<u8>> {
     s.split(',').map(unhex).collect()
 }
 
+/// The items of an iterator are the same whichever part of the Iterator interface draws them: `make` builds a fresh
+/// iterator, `all` is what one full pass with next() gave.  Probed: next() then a fold-based consumer for the rest,
+/// nth / skip / last / count on fresh iterators.  Returns a description of the first disagreement.
+fn protocol_probe<I, F>(make: F, all: &[I::Item]) -> Option<String>
+where I: Iterator, I::Item: PartialEq + Clone + std::fmt::Debug, F: Fn() -> I {
+    if all.len() > 3000 { return None; }
+    let n = all.len();
+    for j in [0usize, 1, 2, n / 2, n.saturating_sub(1)] {
+        if j > n { continue; }
+        // j items with next(), the rest through for_each (fold)
+        let mut it = make(); let mut got = vec![];
+        for _ in 0..j { if let Some(x) = it.next() { got.push(x); } }
+        it.by_ref().for_each(|x| got.push(x));
+        if got != all { return Some(format!("next x {} then for_each gives {} items, one pass gives {}", j, got.len(), n)); }
+        if it.next().is_some() { return Some("an item after the end".into()); }
+        if j < n {
+            let mut it = make();
+            if it.nth(j).as_ref() != Some(&all[j]) { return Some(format!("nth({}) differs", j)); }
+            if it.next().as_ref() != all.get(j + 1) { return Some(format!("next() after nth({}) differs", j)); }
+            if make().skip(j).next().as_ref() != Some(&all[j]) { return Some(format!("skip({}) differs", j)); }
+        }
+    }
+    if make().count() != n { return Some("count() differs".into()); }
+    if make().last().as_ref() != all.last() { return Some("last() differs".into()); }
+    let stepped: Vec<I::Item> = make().step_by(3).collect();
+    if stepped != all.iter().step_by(3).cloned().collect::<Vec<_>>() { return Some("step_by(3) differs".into()); }
+    None
+}
+
 fn run_kg(k: usize, s: &[u8]) -> String {
     let mut it = KmerGenerator::new(s, k);
-    let v: Vec<String> = it.by_ref().map(|(f, r)| format!("{}:{}", f, r)).collect();
+    let all: Vec<(u64, u64)> = it.by_ref().collect();
     // exhausted iterators stay exhausted
     assert!(it.next().is_none());
-    v.join(",")
+    if let Some(e) = protocol_probe(|| KmerGenerator::new(s, k), &all) { return format!("PROTOCOL {}", e); }
+    all.iter().map(|(f, r)| format!("{}:{}", f, r)).collect::<Vec<_>>().join(",")
 }
 
 fn run_mg(w: usize, m: usize, s: &[u8]) -> String {
     let mut it = MinimiserGenerator::new(s, w, m);
-    let v: Vec<String> = it.by_ref().map(|(x, a, b)| format!("{}:{}:{}", x, a, b)).collect();
+    let all: Vec<(u64, usize, usize)> = it.by_ref().collect();
     assert!(it.next().is_none());
-    v.join(",")
+    if let Some(e) = protocol_probe(|| MinimiserGenerator::new(s, w, m), &all) { return format!("PROTOCOL {}", e); }
+    all.iter().map(|(x, a, b)| format!("{}:{}:{}", x, a, b)).collect::<Vec<_>>().join(",")
 }
 
 fn run_kmg(w: usize, m: usize, s: &[u8]) -> String {
     let mut it = KmerMinimiserGenerator::new(s, w, m);
-    let v: Vec<String> = it
-        .by_ref()
-        .map(|(x, a, b, ks)| format!("{}:{}:{}={}", x, a, b, ks.iter().map(|k| k.to_string()).collect::<Vec<_>>().join("+")))
-        .collect();
+    let all: Vec<(u64, usize, usize, Vec<u64>)> = it.by_ref().collect();
     assert!(it.next().is_none());
-    v.join(",")
+    if let Some(e) = protocol_probe(|| KmerMinimiserGenerator::new(s, w, m), &all) { return format!("PROTOCOL {}", e); }
+    all.iter()
+        .map(|(x, a, b, ks)| format!("{}:{}:{}={}", x, a, b, ks.iter().map(|k| k.to_string()).collect::<Vec<_>>().join("+")))
+        .collect::<Vec<_>>()
+        .join(",")
 }
 
 fn run_posmap(k: usize) -> String {
